@@ -139,11 +139,14 @@ ParentStored(b) == \E s \in store : s.id = b.parent /\ s.num + 1 = b.num
 BestOf(S)       == CHOOSE b \in S : \A o \in S : o = b \/ Better(b, o) \/ ~Better(o, b)
 
 \* download: pipeline starts at ancestor + 1 over the given local store
-BStart(localStore, localBest, ancestor) ==
-  /\ status \in {"idle", "ok"} \cup ErrClasses
+\* (q, done): content of the warmedUp channel and whether the upstream stages are finished - <<>> / FALSE for a
+\* download; a given stream / TRUE when the block stream handler is driven on its own (handler contract)
+BStartWith(localStore, localBest, ancestor, q, done) ==
+  /\ status \in {"idle", "ok", "panic"} \cup ErrClasses
   /\ store' = localStore /\ best' = localBest /\ maxNum' = localBest.num
-  /\ from' = ancestor + 1 /\ fetchDone' = FALSE /\ rawQ' = <<>> /\ dec' = None /\ warmQ' = <<>>
+  /\ from' = ancestor + 1 /\ fetchDone' = done /\ rawQ' = <<>> /\ dec' = None /\ warmQ' = q
   /\ imported' = <<>> /\ status' = "run" /\ dropped' = FALSE /\ tainted' = FALSE /\ reqs' = 0
+BStart(localStore, localBest, ancestor) == BStartWith(localStore, localBest, ancestor, <<>>, FALSE)
 
 \* An answer of the peer to GetBlocksFromNumber(from):
 \*   [t |-> "blocks", bs |-> <<...>>] | [t |-> "undecodable"] | [t |-> "toolarge"] | [t |-> "disconnect"]
@@ -236,6 +239,31 @@ FaultReported   == status = "ok" => ~tainted
 DroppedIsError  == dropped => status \in {"disconnected", "decode"}
 \* the sequence check keeps every gap away from the node: "temporary unprocessable" cannot happen during a download
 SequenceGuards  == status # "unprocessable"
+
+(* ------------------------------------------------------------------------------------------------------ *)
+(* (D) serving GetBlocksFromNumber: comm/handle_rpc.go                                                      *)
+(* ------------------------------------------------------------------------------------------------------ *)
+\* for size < maxSize && len(result) < MaxBlocksFromNumber { append block; size += len(raw) }
+\* sizes: encoded sizes of the blocks the server holds from the requested number on.  The budget stops the reply AFTER the
+\* block that crosses it: a reply is empty only if the server has no block at that number - which is exactly how
+\* fetchRawBlockBatches reads an empty reply ("no more blocks", the download is complete).
+RECURSIVE ServeLen(_, _, _, _, _)
+ServeLen(sizes, k, acc, budget, maxCount) ==
+  IF k > Len(sizes) \/ ~(acc < budget) \/ ~(k - 1 < maxCount) THEN k - 1
+  ELSE ServeLen(sizes, k + 1, acc + sizes[k], budget, maxCount)
+Served(sizes, budget, maxCount) == ServeLen(sizes, 1, 0, budget, maxCount)
+
+RECURSIVE SumFirst(_, _)
+SumFirst(sizes, n) == IF n = 0 THEN 0 ELSE SumFirst(sizes, n - 1) + sizes[n]
+SeqsUpTo(S, n) == UNION {[1..m -> S] : m \in 0..n}
+ServeRule ==
+  \A sizes \in SeqsUpTo(1..4, 4) : \A budget \in 1..5 : \A mc \in 1..3 :
+    LET n == Served(sizes, budget, mc) IN
+    /\ n <= Len(sizes) /\ n <= mc
+    /\ Len(sizes) > 0 => n >= 1                                   \* EmptyMeansEnd
+    /\ n >= 1 => SumFirst(sizes, n - 1) < budget                  \* only the last block may cross the budget
+    /\ (n < Len(sizes) /\ n < mc) => SumFirst(sizes, n) >= budget  \* and the reply stops for a reason
+ASSUME ServeRule
 
 (* ------------------------------------------------------------------------------------------------------ *)
 (* (C) one received message: rpc.Serve -> handleRPC                                                         *)
